@@ -788,7 +788,10 @@ class Summaries:
                 if mode == 'values_mut' or mode == 'values':
                     return vref
                 if mode == 'val':
-                    return StructV('(K, V)', {'0': kv, '1': eng.read(st, vref.path) if isinstance(vref, RefV) else vref})
+                    vv = eng.read(st, vref.path) if isinstance(vref, RefV) else vref
+                    if isinstance(vv, StrV) and vv.known is None and vv.prov is None and isinstance(kv, StrV) and kv.oid is not None:
+                        vv = StrV(None, oid=vv.oid, prov=('map-value', kv.oid))      # the text the map holds under this key
+                    return StructV('(K, V)', {'0': kv, '1': vv})
                 return StructV('(K, V)', {'0': mkref(st, kv), '1': vref})
             # set / vec / slice / array
             if items_known and known_elem is not None:
@@ -1661,9 +1664,10 @@ class Summaries:
                             ln = None
                         nc = CollV(kind, rty, next(_c), length=ln, elem=y, prov=('collect', c.prov, tuple(o[0] for o in it.ops)))
                         fl = [o for o in it.ops if o[0] == 'filter']
-                        if kind == 'set' and len(fl) == 1 and all(o[0] in ('filter', 'cloned') for o in it.ops):
-                            # x in collect(filter(p, src))  <=>  x in src and p(x)
-                            s2.vn[('filtered', nc.cid)] = (c.key(), freeze_closure(s2, fl[0][1]), 2, nc.ver)
+                        if kind in ('set', 'vec') and len(fl) == 1 and all(o[0] in ('filter', 'cloned') for o in it.ops) and c.kind in ('set', 'map'):
+                            # x in collect(filter(p, src))  <=>  x in src and p(x)    (src a set, or the keys of a map)
+                            if kind == 'set' or mode in ('keys', 'ref', 'val'):
+                                s2.vn[('filtered', nc.cid)] = (c.key(), freeze_closure(s2, fl[0][1]), 2, nc.ver)
                         out.append((s2, nc))
                     if not out:
                         out.append((st, CollV(kind, rty, next(_c), length=NumV(None, 0, 'usize') if kind == 'vec' else None, known=())))
@@ -1929,6 +1933,29 @@ class Summaries:
                     out_.append((s2, v))
                 return out_
             return fork_opt(ctx, ctx.args[0], dflt, lambda s, p: p)
+
+        @reg('<T as std::convert::Into<U>>::into')
+        def _(ctx):
+            # the blanket `Into` (calls `U::from(t)`): text stays the same text, an integer widened losslessly the same number
+            v = ctx.args[0]
+            rty = ctx.ret_ty
+            x = sval(ctx, v) if isinstance(v, (StrV, RefV)) else v
+            if isinstance(x, StrV) and is_str(rty):
+                return x
+            if isinstance(v, NumV) and rty in INT_RANGES and v.ty in INT_RANGES:
+                lo, hi = INT_RANGES[rty]
+                l0, h0 = INT_RANGES[v.ty]
+                if lo <= l0 and h0 <= hi:
+                    return NumV(v.sym, v.k, rty)
+            if isinstance(v, CharV) and rty in ('u32', 'u64'):
+                n = eng.char_num(ctx.st, v)
+                if isinstance(n, NumV):
+                    return NumV(n.sym, n.k, rty)
+            return self.total(ctx)[0][1]
+
+        @regx(r'^<(bool|u8|u16|u32|u64|usize|i8|i16|i32|i64|isize|std::string::String|&str) as std::default::Default>::default$')
+        def _(ctx):
+            return default_value(ctx, ctx.st, ctx.ret_ty)
 
         @regx(r'^(std|core)::convert::num::<impl (std|core)::convert::From<(u8|u16|u32|u64|usize|i8|i16|i32|i64|isize|bool)> for (u8|u16|u32|u64|u128|usize|i8|i16|i32|i64|i128|isize)>::from$')
         def _(ctx):
@@ -2490,6 +2517,29 @@ class Summaries:
                 return out
             return eng.mk_default(st, rty)
 
+        @regx(r"^<&('a )?(u8|u16|u32|u64|usize|i32|i64) as std::ops::(Add|Sub|Mul|Div|Rem)<&?('a )?\2>>::(add|sub|mul|div|rem)$"
+              r"|^<(u8|u16|u32|u64|usize|i32|i64) as std::ops::(Add|Sub|Mul|Div|Rem)<&('a )?\6>>::(add|sub|mul|div|rem)$")
+        def _(ctx):
+            # arithmetic on references to integers (`*c % 8` written `c % 8` with c: &u32): the operation on
+            # the values, with the same panics (overflow, zero divisor) as the operator on values
+            a = deref(ctx, ctx.args[0]) if isinstance(ctx.args[0], RefV) else ctx.args[0]
+            b = deref(ctx, ctx.args[1]) if isinstance(ctx.args[1], RefV) else ctx.args[1]
+            op = ctx.callee.rsplit('::', 1)[1]
+            rty = ctx.ret_ty
+            st = ctx.st
+            if not (isinstance(a, NumV) and isinstance(b, NumV)):
+                ctx.oblige('overflow', 'arithmetic on references: operands not numeric', False, '%r %s %r' % (a, op, b))
+                return eng.mk_default(st, rty)
+            if op in ('div', 'rem'):
+                blo, bhi = eng.bounds(st, b)
+                ctx.oblige('assert', 'attempt to divide / take the remainder with a divisor of zero', blo > 0 or bhi < 0, 'divisor %r in [%s, %s]' % (b, blo, bhi))
+                return eng.num_divrem(st, 'Div' if op == 'div' else 'Rem', a, b, rty)
+            res = {'add': eng.num_add, 'sub': eng.num_sub, 'mul': eng.num_mul}[op](st, a, b, rty)
+            lo, hi = INT_RANGES.get(rty, (None, None))
+            rlo, rhi = eng.bounds(st, res)
+            ctx.oblige('overflow', 'attempt to %s with overflow' % op, lo is not None and rlo >= lo and rhi <= hi, '%r %s %r in [%s, %s]' % (a, op, b, rlo, rhi))
+            return res
+
         @regx(r'as std::ops::Shl<i32>>::shl$|as std::ops::Shl<u32>>::shl$')
         def _(ctx):
             a = deref(ctx, ctx.args[0])
@@ -2545,6 +2595,38 @@ class Summaries:
              'std::string::<impl std::cmp::PartialEq<std::string::String> for str>::eq')
         def _(ctx):
             return streq(ctx, ctx.args[0], ctx.args[1])
+
+        @regx(r'^core::tuple::<impl (std|core)::cmp::PartialEq for \([A-Z, ]+\)>::(eq|ne)$')
+        def _(ctx):
+            # (a, b) == (c, d): every component equal (numbers, booleans, characters and strings; anything else stays unknown)
+            a = deref(ctx, ctx.args[0])
+            b = deref(ctx, ctx.args[1])
+            ne = ctx.callee.endswith('::ne')
+            if isinstance(a, StructV) and isinstance(b, StructV) and set(a.fields) == set(b.fields) and a.fields:
+                parts = []
+                for k in sorted(a.fields):
+                    x, y = a.fields[k], b.fields[k]
+                    if isinstance(x, NumV) and isinstance(y, NumV):
+                        r = eng.prove_cmp(ctx.st, 'eq', x, y)
+                        parts.append(BoolV(r) if r is not None else BoolV(None, ('cmp', 'eq', x, y)))
+                    elif isinstance(x, (StrV, CharV)) and isinstance(y, (StrV, CharV)):
+                        parts.append(streq(ctx, x, y))
+                    elif isinstance(x, BoolV) and isinstance(y, BoolV) and x.val is not None and y.val is not None:
+                        parts.append(BoolV(x.val == y.val))
+                    else:
+                        parts = None
+                        break
+                if parts is not None:
+                    if any(p_.val is False for p_ in parts):
+                        return BoolV(ne)
+                    und = [p_ for p_ in parts if p_.val is None]
+                    if not und:
+                        return BoolV(not ne)
+                    res = und[0]
+                    for p_ in und[1:]:
+                        res = BoolV(None, ('and', res, p_))
+                    return BoolV(None, ('not', res)) if ne else res
+            return BoolV(None, ('fact', ('tuple-eq', next(_c))))
 
         @reg('std::cmp::impls::<impl std::cmp::PartialEq<&B> for &A>::eq')
         def _(ctx):
@@ -3254,6 +3336,8 @@ class Summaries:
             key = ('contains', c.key(), k.key() if isinstance(k, V) else None)
             cur = ctx.st.vn.get(('fact', key))
             val = eng.mk_default(ctx.st, ety)
+            if isinstance(val, StrV) and val.prov is None and isinstance(k, StrV) and k.known is not None:
+                val = StrV(None, oid=val.oid, prov=('map-value-const', k.known))      # the text the map held under this key
             if isinstance(val, CollV):
                 val = val.evolve(prov=('removed', spath(path), k))
             elif isinstance(val, StructV):
@@ -3465,6 +3549,42 @@ class Summaries:
                 st.vn[('filtered', nc.cid)] = (c.key(), freeze_closure(st, f), 1, nc.ver)
             return UNIT
 
+        def negate(r):
+            if not isinstance(r, BoolV):
+                return r
+            if r.val is not None:
+                return BoolV(not r.val)
+            a = r.atom
+            if a and a[0] == 'cmp' and a[1] in ('lt', 'le', 'gt', 'ge'):
+                return BoolV(None, ('cmp', {'lt': 'ge', 'le': 'gt', 'gt': 'le', 'ge': 'lt'}[a[1]], a[2], a[3]))
+            if a and a[0] == 'not' and isinstance(a[1], BoolV):
+                return a[1]
+            return BoolV(None, ('not', r))
+
+        def remove_all(st, fr, bi, depth, recv_path, fl):
+            """`for k in keys { coll.remove(&k) }` where keys was selected from coll itself by a predicate p
+            (`coll.keys().filter(p).copied().collect()`): coll.retain(|k| !p(k)), in one step"""
+            from .engine import CallCtx
+            ctx = CallCtx(eng, st, fr, bi, fr.body.blocks[bi]['term'], None, 'idiom:remove-all', [], depth)
+            c = eng.read(st, recv_path)
+            srckey, pred, nref = fl[0], fl[1], fl[2]
+            if c.kind == 'map':
+                s2 = st.fork()
+                head, args = split_generic(c.ty)
+                k = eng.mk_default(s2, args[0] if args else '?', name='retain.key')
+                probe = mkref(s2, k)
+                if nref == 2:
+                    probe = mkref(s2, probe)
+                res = eng.call_value(s2, pred, [probe], depth, fr, bi)
+                desc = retain_bound([(s3, negate(r)) for (s3, r) in res], k)
+                log(ctx, 'coll.retain', spath(recv_path), desc)
+                bump(ctx, recv_path, c, known=None, length=None)
+            else:
+                log(ctx, 'coll.retain', spath(recv_path), None)
+                nc = bump(ctx, recv_path, c, known=None, length=None)
+                st.vn[('filtered', nc.cid)] = (c.key(), pred, nref, nc.ver, True)
+        self.h['remove_all'] = remove_all
+
         def retain_bound(res, k):
             """if the predicate is `key < bound` (for every path), return ('lt', bound)"""
             if not isinstance(k, NumV):
@@ -3520,13 +3640,16 @@ class Summaries:
             if fl is not None and fl[3] != c.ver:
                 fl = None      # the collection changed since it was filtered
             if fl is not None and _is_const(v):
-                srckey, pred, nref, _ver = fl
+                srckey, pred, nref, _ver = fl[:4]
+                neg = len(fl) > 4 and fl[4]
                 outs = []
                 probe = mkref(ctx.st, v)
                 if nref == 2:
                     probe = mkref(ctx.st, probe)
                 for (s2, r2) in eng.call_value(ctx.st.fork(), pred, [probe], ctx.depth, ctx.fr, ctx.bi):
                     outs.append(eng.eval_bool(s2, r2) if isinstance(r2, BoolV) else None)
+                if neg:
+                    outs = [None if o is None else (not o) for o in outs]      # kept: the elements the predicate rejects
                 if outs and all(o is False for o in outs):
                     return BoolV(False)
                 if outs and all(o is True for o in outs):
